@@ -1220,6 +1220,16 @@ def parse_response_start_line(line: str) -> ResponseStartLine:
 # RFCs for multipart/form-data) before making this change.
 
 
+_quoted_pair = re.compile(r"\\.", re.DOTALL)
+
+
+def _count_unescaped_quotes(s: str, start: int, end: int) -> int:
+    # A quote is escaped only if it is preceded by an odd number of
+    # backslashes: an escaped backslash at the end of a quoted string does
+    # not escape the closing quote.
+    return _quoted_pair.sub("", s[start:end]).count('"')
+
+
 def _parseparam(s: str) -> Generator[str]:
     start = 0
     while s.find(";", start) == start:
@@ -1227,7 +1237,7 @@ def _parseparam(s: str) -> Generator[str]:
         end = s.find(";", start)
         ind, diff = start, 0
         while end > 0:
-            diff += s.count('"', ind, end) - s.count('\\"', ind, end)
+            diff += _count_unescaped_quotes(s, ind, end)
             if diff % 2 == 0:
                 break
             end, ind = ind, s.find(";", end + 1)
@@ -1267,8 +1277,11 @@ def _parse_header(line: str) -> tuple[str, dict[str, str]]:
     pdict = {}
     for name, decoded_value in decoded_params:
         value = email.utils.collapse_rfc2231_value(decoded_value)
-        if len(value) >= 2 and value[0] == '"' and value[-1] == '"':
-            value = value[1:-1]
+        if isinstance(decoded_value, tuple):
+            # RFC 2231 values come back from decode_params re-quoted and
+            # collapse_rfc2231_value does not unquote them (plain values
+            # are already unquoted exactly once).
+            value = email.utils.unquote(value)
         pdict[name] = value
     return key, pdict
 
